@@ -2,7 +2,7 @@
 // generated problems; prints the fitted table (EV driver format), the derivative along monodim on a grid that
 // contains the knots of the fully supported region, and — for the inactive case — the unconstrained fit.
 //
-// usage: mono_harness <nfits> <cases.out> <impl.out> <stats.out> [<nfits of the small-magnitude family>]
+// usage: mono_harness <nfits> <cases.out> <impl.out> <stats.out> [<nfits of the small-magnitude family> [<nfits of the weight-scale family>]]
 //        mono_harness replay <problem-file> <cases.out> <impl.out>
 //
 // cases.out                                   impl.out
@@ -12,6 +12,8 @@
 //   V d <mask> xbits* centers*                  <bits of ndsplineeval<double>(x, centers, 1<<monodim)>
 //   V d 0 xbits* centers*                       <bits of ndsplineeval<double>(x, centers, 0)>   (the value at the same point)
 //   H <ncoef> <k> (mono-bits32 scaled-bits32)*  scaled        (small-magnitude inactive shape: monotonic fits of data and of 2^k * data)
+//   W <ncoef> <k> (mono-bits32 ref-bits32)*     wscaled       (weight-scale family: monotonic fits with weights w, smoothing lambda and with 2^-k w, 2^-k lambda)
+//   G <ncoef> <k> (mono-bits32 scaled-bits32)*  dscaled       (weight-scale family, large-valued tables: monotonic fits of data and of 2^-k * data)
 //   U <ncoef> (mono-bits32 unc-bits32)*         unc           (inactive case only: both coefficient vectors)
 #include "common.h"
 #include <photospline/splinetable.h>
@@ -29,6 +31,8 @@ struct Problem {
   std::vector<double> smooth;
   std::vector<std::vector<unsigned>> idx;   // rows x ndim
   std::vector<double> z, w;
+  // weight-scale family (shapes 12..17 = shapes 0..5 with a weight pattern of overall scale 2^wk): trailing words "K wk wpat wm wgd wdir" of the P line
+  int wk = 0, wpat = 0, wm = 0, wgd = 0, wdir = 0;   // wpat: 0 uniform scale, 1 random per row 2^[-wm,wm], 2 gradient along a dimension, 3 two blocks; wm: half-spread (binary exponent); wgd, wdir: dimension and direction (+1: weights fall along it) of patterns 2, 3
 };
 
 static std::string problem_line(const Problem& p) {
@@ -42,6 +46,7 @@ static std::string problem_line(const Problem& p) {
   }
   o << " " << p.z.size();
   for (size_t r = 0; r < p.z.size(); r++) { for (int d = 0; d < p.ndim; d++) o << " " << p.idx[r][d]; o << " " << bits(p.z[r]) << " " << bits(p.w[r]); }
+  if (p.shape >= 12) o << " K " << p.wk << " " << p.wpat << " " << p.wm << " " << p.wgd << " " << p.wdir;
   return o.str();
 }
 
@@ -57,7 +62,9 @@ static bool parse_problem(const std::string& line, Problem& p) {
   }
   size_t rows; in >> rows; p.idx.assign(rows, std::vector<unsigned>(p.ndim)); p.z.resize(rows); p.w.resize(rows);
   for (size_t r = 0; r < rows; r++) { uint64_t a, b; for (int d = 0; d < p.ndim; d++) in >> p.idx[r][d]; in >> a >> b; p.z[r] = from_bits(a); p.w[r] = from_bits(b); }
-  return (bool)in;
+  if (!in) return false;
+  std::string k; if (in >> k && k == "K") in >> p.wk >> p.wpat >> p.wm >> p.wgd >> p.wdir;
+  return true;
 }
 
 // family 0: the original data shapes 0..5 (values of order 0.1 .. 100);
@@ -189,6 +196,117 @@ static Problem gen(Rng& r, long it, std::map<std::string, long>& stats, int fami
   return p;
 }
 
+// family 2: weight-scale classes (shapes 12..17 = the first-stream shapes 0..5, the inactive shape three times as often).
+// Weights are 1/variance in practice and span many decades between applications and within one table; the fit depends only on the
+// RATIO weights : smoothing, so the monotonic fit with (2^k w, 2^k lambda) must equal the monotonic fit with (w, lambda), and with
+// lambda = 0 the overall scale of the weights must not matter at all. Overall scale 2^wk with wk in -40..40 (about 1e-12 .. 1e12),
+// uniform over the fit or mixed within one fit (random per row, a gradient along one dimension, two blocks; half-spread 2^4, 2^10 or
+// (random per row only) 2^20 around 2^wk, every weight within 2^-40..2^40 up to the factor 1/16..12 of the base pattern). Smoothing is one of 1e-3..10 times 2^wk, or exactly zero (then the abscissae
+// determine the fit by themselves: order+1 .. order+3 points inside every knot interval of the supported region, full grid, no zero
+// weights). A quarter of the tables has large values (2^10..2^60).
+static Problem gen_ws(Rng& r, long it, std::map<std::string, long>& stats) {
+  Problem p;
+  p.ndim = 1 + (int)(it % 3);
+  p.monodim = r.range(0, p.ndim - 1);
+  static const int cyc[8] = {0, 5, 1, 5, 2, 5, 3, 4};
+  int base = cyc[(it / 3) % 8];
+  p.shape = 12 + base;
+  int maxord = p.ndim == 3 ? 2 : 4;
+  p.order.resize(p.ndim); p.porder.resize(p.ndim); p.smooth.resize(p.ndim); p.knots.resize(p.ndim); p.coords.resize(p.ndim);
+  std::vector<int> naxes(p.ndim);
+  while (true) {
+    long tot = 1;
+    for (int d = 0; d < p.ndim; d++) {
+      p.order[d] = r.range(1, maxord);
+      int extra = p.ndim == 1 ? r.range(0, 7) : (p.ndim == 2 ? r.range(0, 3) : r.range(0, 1));
+      naxes[d] = p.order[d] + 1 + extra; tot *= naxes[d];
+    }
+    if (tot <= 60) break;
+  }
+  bool zero_smooth = r.coin(1, 3);
+  bool determined = zero_smooth || r.coin();
+  p.wpat = r.coin(2, 5) ? 0 : r.range(1, 3);
+  // half-spread: the structured patterns stop at 2^10 (a region whose weights are 2^-40 of the heaviest ones is invisible to a solver whose
+  // stopping tolerance is 1e-9 of the largest gradient, and with the heavy region late along the monotonic dimension the T-spline normal
+  // equations are numerically singular: outside "well-posed"); weights scattered at random over the rows go to 2^20
+  static const int spreads[] = {4, 10, 20};
+  p.wm = p.wpat ? spreads[r.range(0, p.wpat == 1 ? 2 : 1)] : 0;
+  p.wk = 2 * r.range((-40 + p.wm) / 2, (40 - p.wm) / 2);   // even: scaling by 4^j commutes with every rounding of the fit including the square roots of the factorisation
+  for (int d = 0; d < p.ndim; d++) {
+    int nk = naxes[d] + p.order[d] + 1;
+    int style = r.range(0, 1);
+    p.knots[d].resize(nk);
+    double v = r.coin() ? 0.0 : (r.unit() * 4 - 2);
+    for (int i = 0; i < nk; i++) { p.knots[d][i] = v; v += style == 0 ? 1.0 : (0.3 + r.unit() * 1.7); }
+    p.porder[d] = r.range(1, std::min<int>(2, p.order[d]));
+    static const double lams[] = {1e-3, 1e-1, 1.0, 10.0};
+    p.smooth[d] = zero_smooth ? 0.0 : std::ldexp(lams[r.range(0, 3)], p.wk);
+    if (determined) {
+      // order+1 .. order+3 abscissae strictly inside every knot interval of the fully supported region
+      for (int j = p.order[d]; j < naxes[d]; j++) {
+        int cnt = p.order[d] + 1 + r.range(0, 2);
+        double a = p.knots[d][j], h = p.knots[d][j + 1] - a;
+        for (int i = 0; i < cnt; i++) p.coords[d].push_back(a + h * (i + 0.25 + 0.5 * r.unit()) / cnt);
+      }
+    } else {
+      int npts = naxes[d] + r.range(2, 6);
+      double lo = p.knots[d][p.order[d]], hi = p.knots[d][naxes[d]];
+      p.coords[d].resize(npts);
+      for (int i = 0; i < npts; i++) p.coords[d][i] = lo + (hi - lo) * (i + 0.5 * r.unit()) / npts;
+    }
+    stats["order_" + std::to_string(p.order[d])]++;
+  }
+  double drop = (base == 5 || zero_smooth) ? 0.0 : (r.coin(1, 3) ? 0.0 : r.unit() * 0.5);
+  bool large = r.coin(1, 4);
+  double amp = std::ldexp(1.0, large ? r.range(10, 60) : r.range(-3, 6));
+  double ph = r.unit() * 6.28;
+  int gd = r.range(0, p.ndim - 1), dir = r.coin() ? 1 : -1; p.wgd = gd; p.wdir = dir; double wtb = 0.25 + 0.5 * r.unit();
+  std::vector<unsigned> cell(p.ndim, 0);
+  int emin = 0, emax = 0;
+  size_t grid = 1; for (int d = 0; d < p.ndim; d++) grid *= p.coords[d].size();
+  for (int attempt = 0; ; attempt++) {
+  // well-posed problems only: at least half of the grid cells present (a second attempt keeps all of them)
+  if (attempt) { drop = 0.0; p.idx.clear(); p.z.clear(); p.w.clear(); emin = emax = 0; std::fill(cell.begin(), cell.end(), 0u); }
+  while (true) {
+    if (r.unit() >= drop) {
+      double t = (p.coords[p.monodim][cell[p.monodim]] - p.coords[p.monodim].front()) / (p.coords[p.monodim].back() - p.coords[p.monodim].front() + 1e-300);
+      double other = 0; for (int d = 0; d < p.ndim; d++) if (d != p.monodim) other += 0.3 * std::sin(1.3 * p.coords[d][cell[d]] + d);
+      double f;
+      switch (base) {
+        case 0: f = 2 * t + other + 0.4 * (r.unit() - 0.5); break;
+        case 1: f = 3 - 4 * t + other + 0.2 * (r.unit() - 0.5); break;
+        case 2: f = std::sin(9 * t + ph) + other; break;
+        case 3: f = 4 * (r.unit() - 0.5); break;
+        case 4: f = (t > 0.5 ? 1.0 : -1.0) * (r.coin(1, 8) ? -1 : 1); break;
+        default: f = 1.0 + 3 * t + 0.5 * t * t + 0.2 * (2 + other); break;
+      }
+      double bw = (!zero_smooth && r.coin(1, 12)) ? 0.0 : std::ldexp(1.0, r.range(-3, 3)) * (0.5 + r.unit());
+      double u = (p.coords[gd][cell[gd]] - p.coords[gd].front()) / (p.coords[gd].back() - p.coords[gd].front() + 1e-300);
+      int e = 0;
+      if (p.wpat == 1) e = r.range(-p.wm, p.wm);
+      else if (p.wpat == 2) e = dir * (int)std::lround(p.wm * (1 - 2 * u));
+      else if (p.wpat == 3) e = dir * (u < wtb ? p.wm : -p.wm);
+      emin = std::min(emin, e); emax = std::max(emax, e);
+      p.idx.push_back(cell); p.z.push_back(amp * f); p.w.push_back(std::ldexp(bw, p.wk + e));
+    }
+    int d = p.ndim - 1;
+    while (d >= 0) { if (++cell[d] < p.coords[d].size()) break; cell[d] = 0; d--; }
+    if (d < 0) break;
+  }
+  if (2 * p.z.size() >= grid) break;
+  }
+  stats["ndim_" + std::to_string(p.ndim)]++; stats["shape_" + std::to_string(p.shape)]++;
+  stats["monodim_" + std::to_string(p.monodim)]++; stats[drop == 0.0 ? "dense_data" : "sparse_data"]++;
+  stats["ws_pattern_" + std::to_string(p.wpat)]++; if (p.wpat) stats["ws_halfspread_2^" + std::to_string(p.wm)]++;
+  stats[p.wk < -27 ? "ws_scale_2^-40..-28" : (p.wk < -13 ? "ws_scale_2^-27..-14" : (p.wk <= 13 ? "ws_scale_2^-13..13" : (p.wk <= 27 ? "ws_scale_2^14..27" : "ws_scale_2^28..40")))]++;
+  if (p.wk + emin < -27) stats["ws_some_weight_below_2^-27"]++;
+  if (p.wk + emax < -27) stats["ws_all_weights_below_2^-27"]++;
+  stats[zero_smooth ? "ws_zero_smoothing" : "ws_smoothing_scaled_with_weights"]++;
+  stats[determined ? "ws_abscissae_determine_fit" : "ws_abscissae_like_first_stream"]++;
+  if (large) stats["ws_large_values_2^10..60"]++;
+  return p;
+}
+
 static bool do_fit(const Problem& p, uint32_t monodim, Table& t, std::string& err) {
   struct ndsparse data; data.rows = p.z.size(); data.ndim = p.ndim;
   std::vector<double> x(p.z); data.x = x.data();
@@ -278,7 +396,36 @@ static void run_problem(const Problem& p, Rng& r, std::map<std::string, long>& s
       }
     }
   }
-  if (p.shape == 5 || p.shape == 10) {
+  if (p.shape >= 12) {
+    // weight-scale equivariance: the monotonic fit with (w, lambda) must equal the monotonic fit with (2^-wk w, 2^-wk lambda)
+    Problem q = p; for (double& v : q.w) v = std::ldexp(v, -p.wk); for (double& v : q.smooth) v = std::ldexp(v, -p.wk);
+    Table b; std::string e3;
+    if (do_fit(q, q.monodim, b, e3)) {
+      uint64_t nc = t.strides[0] * t.naxes[0];
+      fprintf(fc, "W %llu %d", (unsigned long long)nc, p.wk);
+      for (uint64_t j = 0; j < nc; j++) fprintf(fc, " %u %u", bits(t.coefficients[j]), bits(b.coefficients[j]));
+      fprintf(fc, "\n"); fprintf(fi, "wscaled\n");
+      stats["weight_scaled_pairs"]++;
+    } else stats["weight_scaled_reference_threw"]++;
+    // large-valued tables: the monotonic fit of 2^-k * data must be 2^-k times the monotonic fit of data; k brings the data to [1, 2)
+    double zmax = 0; for (double v : p.z) zmax = std::max(zmax, std::fabs(v));
+    if (zmax >= 512 && std::isfinite(zmax)) {
+      int k = std::ilogb(zmax);
+      Problem q2 = p; for (double& v : q2.z) v = std::ldexp(v, -k);
+      Table b2; std::string e4;
+      if (do_fit(q2, q2.monodim, b2, e4)) {
+        uint64_t nc = t.strides[0] * t.naxes[0];
+        fprintf(fc, "G %llu %d", (unsigned long long)nc, k);
+        for (uint64_t j = 0; j < nc; j++) fprintf(fc, " %u %u", bits(t.coefficients[j]), bits(b2.coefficients[j]));
+        fprintf(fc, "\n"); fprintf(fi, "dscaled\n");
+        stats["large_value_scaled_pairs"]++;
+      }
+    }
+  }
+  bool zero_smoothing = true; for (double v : p.smooth) if (v != 0) zero_smoothing = false;
+  // inactive case; for the weight-scale family in >= 2 dimensions only with zero smoothing (with smoothing the penalty of the other
+  // dimensions is built in the wrong coordinates: known finding inactive:differs:nd, which would hide anything else)
+  if (p.shape == 5 || p.shape == 10 || (p.shape == 17 && (p.ndim == 1 || zero_smoothing))) {
     Table u; std::string e2;
     if (do_fit(p, Table::no_monodim, u, e2)) {
       uint64_t nc = t.strides[0] * t.naxes[0];
@@ -307,6 +454,10 @@ int main(int argc, char** argv) {
   long nsmall = argc >= 6 ? atol(argv[5]) : 0;
   Rng r2(env_seed() * 0x2545F4914F6CDD1DULL + 1010);
   for (long it = 0; it < nsmall; it++) { Problem p = gen(r2, it, stats, 1); run_problem(p, r2, stats); fflush(fc); fflush(fi); }
+  // third stream (own generator state again): weight-scale classes
+  long nws = argc >= 7 ? atol(argv[6]) : 0;
+  Rng r3(env_seed() * 0x2545F4914F6CDD1DULL + 2010);
+  for (long it = 0; it < nws; it++) { Problem p = gen_ws(r3, it, stats); run_problem(p, r3, stats); fflush(fc); fflush(fi); }
   fclose(fc); fclose(fi);
   std::ofstream fs(argv[4]);
   fs << "{"; bool first = true; for (auto& kv : stats) { fs << (first ? "" : ", ") << "\"" << kv.first << "\": " << kv.second; first = false; } fs << "}\n";
